@@ -281,8 +281,15 @@ def rule_submit_discipline(ctx, r):
 class ShouldRunSem(Semantics):
     loop_bound = 1
 
+    def xt(self, expr):
+        """Text of an expression with hoisted locals (outputs = target.flattened_outputs()) expanded."""
+        from ..astutil import expand
+        return expand(self.finfo.node, expr, self._table)
+
     def __init__(self, ctx, finfo):
         super().__init__(ctx.index, finfo)
+        from ..astutil import single_assignments
+        self._table = single_assignments(finfo.node)
         self.ctx = ctx
         p = finfo.positional_params()
         self.target_p, self.fs_p, self.hashes_p = p[0], p[1], p[2]
@@ -298,7 +305,7 @@ class ShouldRunSem(Semantics):
                     names = [t.id]
                 elif isinstance(t, ast.Tuple) and t.elts and isinstance(t.elts[0], ast.Name):
                     names = [t.elts[0].id]
-                txt = ast.unparse(n.value)
+                txt = self.xt(n.value)
                 if f"{self.hashes_p}.has_changed(" in txt:
                     self.hash_vars.update(names)
                 agg = self._aggregate(n.value)
@@ -309,14 +316,14 @@ class ShouldRunSem(Semantics):
         """('max'|'min', 'inputs'|'outputs', call) if expr is max/min over changed_at of all flattened inputs/outputs."""
         if isinstance(expr, ast.Call) and isinstance(expr.func, ast.Name) and expr.func.id in ("max", "min") and \
                 self.index.canon(expr.func, self.module) in ("builtins.max", "builtins.min"):
-            txt = ast.unparse(expr)
+            txt = self.xt(expr)
             which = "inputs" if f"{self.target_p}.flattened_inputs()" in txt else "outputs" if f"{self.target_p}.flattened_outputs()" in txt else None
             if which:
                 return expr.func.id, which, expr
         return None
 
     def domain(self, text):
-        if text in self.hash_vars:
+        if text in self.hash_vars or text == f"{self.hashes_p}.has_changed({self.target_p})":
             return ("NONE", "HASH")
         return None
 
@@ -344,7 +351,7 @@ class ShouldRunSem(Semantics):
             return state
         s = state
         for c in _calls(node):
-            txt = ast.unparse(c)
+            txt = self.xt(c)
             if txt.startswith(f"{self.hashes_p}.has_changed("):
                 s = s.with_fact("hash_first", not any(k in s.facts for k in ("exists_test", "agg_inputs", "agg_outputs")))
             agg = self._aggregate(c)
@@ -356,7 +363,7 @@ class ShouldRunSem(Semantics):
         e, neg = expr, False
         if isinstance(e, ast.UnaryOp) and isinstance(e.op, ast.Not):
             e, neg = e.operand, True
-        txt = ast.unparse(e)
+        txt = self.xt(e)
         if isinstance(e, ast.Call) and txt.startswith(f"{self.fs_p}.exists("):
             return [(True ^ neg, state.with_fact("exists_test", True)), (False ^ neg, state.with_fact("exists_test", True).with_fact("missing", True))]
         if txt in (f"{self.target_p}.flattened_outputs()", f"{self.target_p}.outputs", f"len({self.target_p}.flattened_outputs())"):
@@ -381,7 +388,7 @@ def explore_should_run(ctx):
     class Ex(Explorer):
         def s_For(self, st, state):
             outs = super().s_For(st, state)
-            txt = ast.unparse(st.iter)
+            txt = sem.xt(st.iter)
             if f"{sem.target_p}.flattened_outputs()" in txt and f"{sem.fs_p}.exists(" in ast.unparse(st):
                 outs = [type(o)(o.kind, o.state.with_fact("exist_loop_done", True) if o.kind == "next" else o.state, o.payload, o.node) for o in outs]
             return outs
